@@ -49,28 +49,19 @@ ALIAS_FUNCS = {'abs'}
 # the exception classes raised, each with the reason it cannot make a bundled printer fail on an instance of its own
 # type.  Keyed by function and *kind*, not by the text of the asserted expression, so rewriting an assert does not matter;
 # an additional assert / a new exception class in the function does.
-MAY_RAISE_ALLOWED = {
-    'pretty_cnamedtuple': ({'raise _': 'cached resolution failure; the only caller catches Exception and prints a plain tuple'}, 0),
-    'commentdoc': ({'raise ValueError': 'empty comment text; every call site tests the comment for truthiness first'}, 0),
-    'str_to_lines': ({}, 3),        # max_len > 0 (C12.c floor) and the two bytes type checks
-    '_default_split_patterns': ({}, 1),
-    'determine_quote_strategy': ({}, 1),
-    'pretty_str.<locals>.evaluator': ({}, 1),   # the four strategies are a closed set
-    '_run_pretty_visited': ({'raise ValueError': 'return-type validation demanded by C14'}, 0),
-    '_run_pretty': ({'raise ValueError': 'return-type validation demanded by C14'}, 0),
-    'best_layout': ({'raise ValueError': 'unknown document kind / mode (C04.a default branch)'}, 0),
-    'fast_fitting_predicate': ({'raise ValueError': 'unknown document kind / mode'}, 0),
-    'smart_fitting_predicate': ({'raise ValueError': 'unknown document kind / mode'}, 0),
-    'validate_doc': ({'raise ValueError': 'rejects non-documents handed to a combinator'}, 0),
-    'PrettyContext._replace': ({}, 1),
-    'CommentAnnotation.__init__': ({}, 1),
-    'Nest.__init__': ({}, 2),
-    'Group.__init__': ({}, 1),
-    'AlwaysBreak.__init__': ({}, 1),
-    'SLine.__init__': ({}, 1),
-    'register_pretty': ({'raise ValueError': 'argument validation at registration time'}, 0),
-    'register_pretty.<locals>.decorator': ({'raise ValueError': 'signature validation at registration time'}, 1),
-    'is_registered': ({'raise ValueError': 'flag combination validation'}, 0),
+MAY_RAISE_BUDGET = {
+    # (module, kind) -> (how many such sites the printing pipeline may contain, why none of them can make a bundled printer fail on an
+    # instance of its own type).  Counted per module and kind, not per function: extracting a helper or merging duplicates moves or
+    # removes sites; only an additional site (or a new exception class) is a change of behaviour.
+    ('doc', 'raise ValueError'): (1, 'validate_doc rejects non-documents handed to a combinator'),
+    ('doctypes', 'assert'): (4, 'constructor argument checks of Nest (2), Group, AlwaysBreak'),
+    ('sdoctypes', 'assert'): (1, 'SLine indent is an int'),
+    ('layout', 'raise ValueError'): (6, 'unknown document kind / unknown mode: default branches of closed dispatches'),
+    ('prettyprinter', 'assert'): (7, 'max_len > 0 (C12.c floor), two bytes type checks, the closed set of multiline strategies, _replace field names, '
+                                     'comment text is str, predicate is callable'),
+    ('prettyprinter', 'raise ValueError'): (7, 'return-type validation demanded by C14, empty comment text (every call site tests truthiness first), '
+                                               'flag / argument / signature validation at registration time'),
+    ('prettyprinter', 'raise <variable>'): (1, 'cached resolution failure in the struct-sequence printer; the only caller catches Exception'),
 }
 
 
@@ -332,8 +323,8 @@ def run(repo, rep):
 
     # ---------------------------------------------------------------- C07.e
     n = 0
-    assert_seen = {}
     cone, graph, fns = effects.print_cone(repo)
+    sites = {}
     for k in sorted(cone):
         f = fns[k]
         if '.extras' in f.module.name or f.module.name.endswith('.color'):
@@ -341,43 +332,42 @@ def run(repo, rep):
         g = Guards(f.node)
         par = enclosing_map(f.node)
         for s in effects._own_nodes(f.node):
-            label = None
+            kind = None
             if isinstance(s, ast.Raise):
                 if s.exc is None:
                     continue
                 e = s.exc.func if isinstance(s.exc, ast.Call) else s.exc
-                label = 'raise ' + (dotted(e) or src(e))
+                name = dotted(e) or src(e)
+                if _is_caught_variable(s, e, par):
+                    continue        # ``raise e`` of the exception just caught: no new failure
+                builtin_exc = isinstance(getattr(__import__('builtins'), name, None), type)
+                kind = 'raise ' + (name if (builtin_exc or isinstance(s.exc, ast.Call)) else '<variable>')
+                if name == 'StopIteration':
+                    continue
             elif isinstance(s, ast.Assert):
-                label = 'assert ' + _norm_label(s.test, f.node)
-            if label is None:
+                if _implied(s.test, g.of(s)):
+                    n += 1
+                    rep.ok('C07.e', '%s:assert-implied' % f.qualname, '%s:%d' % (f.module.relpath, s.lineno), 'asserted test is implied by the dominating tests')
+                    continue
+                kind = 'assert'
+            if kind is None:
                 continue
-            n += 1
-            if isinstance(s, ast.Assert) and _implied(s.test, g.of(s)):
-                rep.ok('C07.e', '%s:%s' % (f.qualname, label), '%s:%d' % (f.module.relpath, s.lineno), 'asserted test is implied by the dominating tests')
-                continue
-            if isinstance(s, ast.Raise) and label.split()[1] not in ('ValueError', 'TypeError', 'KeyError', 'IndexError', 'AssertionError', 'RuntimeError',
-                                                                       'NotImplementedError', 'Exception', 'AttributeError', 'StopIteration'):
-                label = 'raise ' + _norm_label(s.exc.func if isinstance(s.exc, ast.Call) else s.exc, f.node)
-            if label.startswith('raise ') and label.split()[1] in ('e', 'exc', 'StopIteration'):
-                rep.ok('C07.e', '%s:%s' % (f.qualname, label), '%s:%d' % (f.module.relpath, s.lineno), 're-raise')
-                continue
-            if isinstance(s, ast.Raise) and any(isinstance(d, list) for d in [f.node.body]) and _in_default_branch(s, par):
-                rep.ok('C07.e', '%s:%s' % (f.qualname, label), '%s:%d' % (f.module.relpath, s.lineno), 'default branch of a closed dispatch')
-                continue
-            allowed_raises, allowed_asserts = MAY_RAISE_ALLOWED.get(f.qualname, ({}, 0))
-            if isinstance(s, ast.Assert):
-                assert_seen[f.qualname] = assert_seen.get(f.qualname, 0) + 1
-                okk = assert_seen[f.qualname] <= allowed_asserts
-                rep.check(okk, 'C07.e', '%s:assert#%d' % (f.qualname, assert_seen[f.qualname]), '%s:%d' % (f.module.relpath, s.lineno),
-                          'one of the %d reasoned programming-error guards of this function' % allowed_asserts,
-                          '%s contains the assertion "%s" inside the printing pipeline (%d allowed there, each reasoned in the checker): a bundled '
-                          'printer can fail on an instance of its own type' % (f.qualname, src(s.test)[:80], allowed_asserts), nontrivial=True)
-            else:
-                reason = allowed_raises.get(label)
-                rep.check(reason is not None, 'C07.e', '%s:%s' % (f.qualname, label), '%s:%d' % (f.module.relpath, s.lineno),
-                          reason or '',
-                          '%s contains "%s" inside the printing pipeline and it is not in the reasoned allow-table: a bundled printer '
-                          'can fail on an instance of its own type' % (f.qualname, label), nontrivial=True)
+            sites.setdefault((f.module.name.split('.')[-1], kind), []).append((f, s))
+    for key in sorted(set(sites) | set(MAY_RAISE_BUDGET)):
+        budget, why = MAY_RAISE_BUDGET.get(key, (0, ''))
+        found = sites.get(key, [])
+        n += 1
+        where = '%s:%d' % (found[-1][0].module.relpath, found[-1][1].lineno) if found else key[0]
+        rep.check(len(found) <= budget, 'C07.e', 'may-raise:%s:%s' % key, where,
+                  '%d of at most %d sites: %s' % (len(found), budget, why),
+                  'the printing pipeline contains %d "%s" sites in %s.py (%s) where %d are accounted for (%s): a bundled printer can fail on an '
+                  'instance of its own type' % (len(found), key[1], key[0], ', '.join('%s:%d' % (f_.qualname, s_.lineno) for f_, s_ in found), budget,
+                                                why or 'none reasoned'), nontrivial=True)
+    for k in sorted(cone):
+        f = fns[k]
+        if '.extras' in f.module.name or f.module.name.endswith('.color'):
+            continue
+        g = Guards(f.node)
         # constant-index subscripts on possibly empty local sequences
         defs = {}
         for s in ast.walk(f.node):
@@ -484,6 +474,18 @@ def run(repo, rep):
     from .c07_shape import run_shape
     rep.floor('C07.h', run_shape(repo, rep), 20)
     rep.analysed['attribute_reads_checked'] = n_reads
+
+
+def _is_caught_variable(raise_node, exc_expr, par):
+    """``raise e`` inside ``except ... as e``"""
+    if not isinstance(exc_expr, ast.Name):
+        return False
+    p = par.get(id(raise_node))
+    while p is not None:
+        if isinstance(p, ast.ExceptHandler) and p.name == exc_expr.id:
+            return True
+        p = par.get(id(p))
+    return False
 
 
 def _in_default_branch(node, par):
